@@ -326,7 +326,7 @@ func primCmd(args []string) error {
 	var wide []uint64
 	for k := uint(0); k < 64; k++ {
 		for d := int64(-2); d <= 2; d++ {
-			wide = append(wide, uint64(int64(1)<<k+d), uint64(-(int64(1) << k)+d))
+			wide = append(wide, uint64(int64(1)<<k+d), uint64(-(int64(1)<<k)+d))
 		}
 	}
 	for i := 0; i < *nwide; i++ {
